@@ -374,3 +374,59 @@ package encoding
 //@   modifies src[idx:len(src)]
 //@   ensures  bounds: result2 == nil ==> idx <= result0 && result0 < result1 && result1 <= len(src)
 //@   ensures  tail: result2 == nil ==> (forall j :: result1 <= j && j < len(src) ==> src[j] == old(src[j]))
+//
+// ---- float64 lists as scaled decimals (float.go): lossless or refused ----
+// decOne(v, e): the double the decoder produces for the decimal v*10^e. The decoder's floating-point arithmetic is not
+// interpreted; what is assumed of it is only that element i of its output depends on values[i] and the exponent alone.
+//@ decl func decOne(v int64, e int16) float64
+//@ func DecimalIntListToFloat64List
+//@   property C11 C01
+//@   assumed the restore arithmetic (float64(v) scaled by powers of ten) is kept uninterpreted; see decOne
+//@   requires itemsCount >= 0
+//@   modifies dst[len(dst):cap(dst)]
+//@   ensures  result1 == nil && len(result0) == len(values)
+//@   ensures  elementwise: forall i :: 0 <= i && i < len(values) ==> result0[i] == decOne(values[i], exponent)
+//@ func floatToDecimal
+//@   property C11 C01
+//@   assumed shortest-decimal conversion through strconv (not modelled): any mantissa / exponent may come back
+//@   pure
+//@ func mulPow10Fast
+//@   property C11 C01
+//@   assumed overflow-checked scaling (not modelled here): any value may come back
+//@   pure
+//@ func getInt16Scratch
+//@   property C11 C01
+//@   assumed scratch pool (channel): a slice of the requested length that nobody else uses
+//@   ensures len(result) == n && (n > 0 ==> fresh(result))
+//@ func putInt16Scratch
+//@   property C11 C01
+//@   assumed scratch pool (channel)
+//@ func getScratchBuf
+//@   property C11 C01
+//@   assumed scratch pool (channel)
+//@   ensures len(result) >= 0
+//@ func putScratchBuf
+//@   property C11 C01
+//@   assumed scratch pool (channel)
+//
+// Whatever floatToDecimal and the scaling produce, success is reported only if the decoder gives every value back
+// (Go's == on float64: identical bits, except that the two zeros compare equal).
+//@ func Float64ListToDecimalIntList
+//@   property C11 C01
+//@   mode int
+//@   opt wrap int16
+//@   modifies dst[0:cap(dst)]
+//@   ensures  refused: result2 != nil ==> len(result0) == 0
+//@   ensures  length: result2 == nil ==> len(result0) == len(src)
+//@   ensures  lossless: result2 == nil ==> (forall i :: 0 <= i && i < len(src) ==> feq(decOne(result0[i], result1), src[i]))
+//@   loop 0 invariant len(decimals) == range_i && len(exps) == len(src) && (sameobj(decimals, dst) || fresh(decimals) || len(decimals) == 0)
+//@   loop 1 invariant len(decimals) == len(src) && len(exps) == len(src)
+//@   loop 2 invariant forall k :: 0 <= k && k < range_i ==> feq(decOne(decimals[k], minExp), src[k])
+//@   loop 2 invariant len(decimals) == len(src) && len(restored) == len(src)
+//@ lemma floatDecimalRoundTrip(src []float64, ints []int64, e int16, back []float64)
+//@   property C11 C01
+//@   mode int
+//@   requires len(ints) == len(src) && len(back) == len(ints)
+//@   requires forall i :: 0 <= i && i < len(src) ==> feq(decOne(ints[i], e), src[i])
+//@   requires forall i :: 0 <= i && i < len(ints) ==> back[i] == decOne(ints[i], e)
+//@   ensures  forall i :: 0 <= i && i < len(src) ==> feq(back[i], src[i])
